@@ -306,10 +306,17 @@ impl Report {
         let workers = nthreads().min(n.div_ceil(chunk)).max(1);
         let slots: Vec<Mutex<Option<(Instant, usize)>>> = (0..workers).map(|_| Mutex::new(None)).collect();
         let done = std::sync::atomic::AtomicBool::new(false);
+        let done_signal = (Mutex::new(()), std::sync::Condvar::new());
         std::thread::scope(|s| {
             s.spawn(|| {
                 while !done.load(Ordering::Relaxed) {
-                    std::thread::sleep(std::time::Duration::from_millis(200));
+                    {
+                        // sleep up to 200 ms, but wake immediately when the workers are finished
+                        let g = done_signal.0.lock().unwrap();
+                        if !done.load(Ordering::Relaxed) {
+                            let _ = done_signal.1.wait_timeout(g, std::time::Duration::from_millis(200)).unwrap();
+                        }
+                    }
                     for slot in &slots {
                         let cur = *slot.lock().unwrap();
                         if let Some((t0, a)) = cur {
@@ -349,7 +356,11 @@ impl Report {
             for h in handles {
                 worker_panicked |= h.join().is_err();
             }
-            done.store(true, Ordering::Relaxed);
+            {
+                let _g = done_signal.0.lock().unwrap();
+                done.store(true, Ordering::Relaxed);
+                done_signal.1.notify_all();
+            }
             if worker_panicked {
                 panic!("a worker of {} panicked outside a monitored case (harness error)", what);
             }
